@@ -532,3 +532,5 @@ _amend("C01", "level_text", "failing and to-be-skipped transactions)", "failing 
 
 _amend("C02", "level_text", "state root, receipts root and receipts bytes must equal the producer's every time.",
        "state root, receipts root and receipts bytes must equal the producer's every time. Raft unit: blocks with generated mixes of enterprise changeCluster requests (add / remove, malformed, by the admin and by others), admin changes and transfers are built on a node whose consensus layer answers like the raft leader and must be connected with the same roots by a node whose consensus layer answers like a follower.")
+
+_amend("C11", "level_text", "then attacked by ~15 corruption/transplant families;", "then attacked by ~17 corruption/transplant families (among them audit path elements that are not hashes: the tail of a present key's own leaf preimage; keys are drawn with a zero first byte in a quarter of the cases); the empty trie must yield accepted absence proofs; at StateDB level also variables of accounts WITHOUT storage (key possibly another account's id) must be proved absent against the empty storage root;")
